@@ -1,5 +1,6 @@
 import Driver.Util
 import KdVerif.Model.Trace
+import KdVerif.Model.TraceDomain
 import KdVerif.Gen.Decoders
 import KdVerif.Gen.Host
 open KdVerif KdVerif.IR KdVerif.Trace
@@ -60,6 +61,17 @@ def cmdTraces : Cmd
     | _, _ => "bad-op"
   | _ => "bad-op"
 
-def commands : List (String × Cmd) := [("traces", cmdTraces)]
+/-- `indomain <codes> <record hex>`: C07's `wordsOK` of one record (four words + the own-field side conditions
+    of the decoder registered for its code, in the roles its qualifier allows), and its text payload. -/
+def cmdInDomain : Cmd
+  | [codes, r] =>
+    match parseCodes codes, parseRecs [r] with
+    | some cs, some [e] =>
+      let env := mkEnv cs
+      s!"ok {if wordsOK env e then 1 else 0} {let p := toHex (payload env e); if p = "" then "-" else p}"
+    | _, _ => "bad-op"
+  | _ => "bad-op"
+
+def commands : List (String × Cmd) := [("traces", cmdTraces), ("indomain", cmdInDomain)]
 
 end Driver.Trace
